@@ -749,17 +749,41 @@ Proof.
   - intros u w H. discriminate H.
 Qed.
 
+Lemma hplain_inj : forall a b, HPlain a = HPlain b -> a = b.
+Proof. intros a b H. injection H as H. exact H. Qed.
+
+Lemma fill_one_D : forall st st1 wi p m k,
+  CInv (core st) -> SlInv st -> DRel p st m -> k = nfill st ->
+  wh_add st (HPlain (1000000 + k)) = Some (st1, wi) -> DRel p (set_nfill st1 (k + 1)) m.
+Proof.
+  intros st st1 wi p m k I S R Hk E.
+  assert (Hh : HPlain (1000000 + k) <> HReserved) by discriminate.
+  destruct (wh_add_post st _ st1 wi I Hh E) as [Hfresh [Hget [Hold [Ed [Et [En [Ew [Eu [Ec Ep]]]]]]]]].
+  pose proof (wh_add_new st _ st1 wi I Hh E) as Hnew.
+  apply (d_ext p st (set_nfill st1 (k + 1)) m True (wbit wi) (1000000 + k) S R).
+  - exact Et.
+  - exact Ed.
+  - exact Hold.
+  - intros x w G. change (sl (set_nfill st1 (k + 1))) with (sl st1) in G.
+    destruct (Hnew x _ G) as [G0|[[G1 G0]|G0]]; [left; exact G0| |discriminate G0].
+    apply hplain_inj in G0. right. split; [exact Logic.I|]. split; [exact G1|exact G0].
+  - intros _. exact Hfresh.
+  - intros _. right. split; [rewrite Hk; reflexivity|]. change (nfill (set_nfill st1 (k + 1))) with (k + 1). rewrite Hk. reflexivity.
+  - intros w Hw. change (wused (set_nfill st1 (k + 1)) w) with (wused st1 w). rewrite Eu. exact Hw.
+  - change (nfill (set_nfill st1 (k + 1))) with (k + 1). rewrite Hk. apply Z.le_succ_diag_r.
+Qed.
+
 Lemma fill_loop_D : forall n st ev st' ev' p m,
   CInv (core st) -> pristine st -> wfi st -> SlInv st -> DRel p st m -> fill_loop n st ev = (st', ev') -> DRel p st' m.
 Proof.
   induction n as [|n IH]; intros st ev st' ev' p m I P Wf S R H; cbn [fill_loop] in H.
   - inversion H; subst. exact R.
   - destruct (wh_add st (HPlain (1000000 + nfill st))) as [[st1 wi]|] eqn:E; [|inversion H; subst; exact R].
+    pose proof (fill_one_D st st1 wi p m (nfill st) I S R eq_refl E) as R1.
     destruct (sl_add_slab st (HPlain (1000000 + nfill st)) st1 wi I P S ltac:(discriminate) E) as [S1 _].
     destruct (wh_add_core _ _ _ _ E) as [c1 [A [B [C1 [C2 [C3 [C4 [C5 [C6 [C7 C8]]]]]]]]]].
-    destruct (wh_add_post st (HPlain (1000000 + nfill st)) st1 wi I ltac:(discriminate) E) as [Hfresh [Hget [Hold [Ed [Et [En [Ew [Eu [Ec Ep]]]]]]]]].
     assert (I1 : CInv (core st1)) by (eapply (add_model st _ st1 wi I); [|exact E]; discriminate).
-    eapply IH; [| | | | |exact H].
+    eapply IH; [| | | |exact R1|exact H].
     + eapply CInv_ceq; [|exact I1]. same_core.
     + destruct P as [P0 P]. split; cbn; rewrite ?C2; auto. intros u Hu. rewrite C1. apply P. lia.
     + destruct (wh_add_reg st (HPlain (1000000 + nfill st)) st1 wi I ltac:(discriminate) E) as [R0 _].
@@ -768,9 +792,4 @@ Proof.
       * intros c0. cbn. rewrite C7. intro E0. apply R0. apply W2; auto.
       * intros c0. cbn. rewrite C7. apply W3.
     + sl_irr st1.
-    + apply (d_ext p st _ m True (wbit wi) (1000000 + nfill st) S R); cbn; auto.
-      * intros x w G. destruct (wh_add_new st (HPlain (1000000 + nfill st)) st1 wi I ltac:(discriminate) E x _ G) as [G0|[[-> G0]|G0]]; [left; exact G0| |discriminate G0].
-        inversion G0. right. auto.
-      * intros w Hw. rewrite Eu. exact Hw.
-      * lia.
 Qed.
